@@ -28,6 +28,9 @@ try:
             print("    " + l[:200])
 finally:
     subprocess.run(["git", "-C", REPO, "checkout", "--", "."])
+    # the evidence files describe runs against the unchanged tree: put back what the mutated run overwrote
+    if os.path.isdir(os.path.join(ROOT, ".git")):
+        subprocess.run(["git", "-C", ROOT, "checkout", "--"] + ["evidence/%s.json" % p for p in props])
 det = meta.get("detected_by") or {}
 det.update({p: ("detected" if v["exit"] == 1 else "missed" if v["exit"] == 0 else "tool-error") + " (%s tier)" % tier for p, v in res.items()})
 meta["detected_by"] = det
